@@ -150,6 +150,14 @@ def _reshape(x, arg):
 
 
 def _set_core(x, arg):
+    if arg in ('neg1', 'negd'):
+        # a negative core index with a core sized by Python's negative indexing into the rank list (must be rejected, or
+        # handled consistently)
+        k = -1 if arg == 'neg1' else -len(x.N)
+        R = x.R
+        shp = [R[k], 2] + ([2] if x.is_ttm else []) + [R[k + 1]]
+        x.set_core(k, torch.ones(shp, dtype=x.cores[0].dtype))
+        return None
     k = 0 if arg in ('same0', 'grow0') else len(x.N) - 1
     c = x.cores[k]
     if arg.startswith('same'):
@@ -213,7 +221,8 @@ UNARY = [
     Ev('apply_mask', 1, lambda x, a: x.apply_mask(torch.zeros(2, len(x.N), dtype=torch.int64)), _is_t),
     Ev('to_f32', 1, lambda x, a: x.to(dtype=torch.float32), lambda x: not x.cores[0].dtype.is_complex),
     Ev('cpu', 1, lambda x, a: x.cpu()),
-    Ev('set_core', 1, _set_core, inplace=True, args=('same0', 'growlast')),
+    Ev('set_core', 1, _set_core, inplace=True, args=('same0', 'growlast', 'neg1', 'negd')),
+    Ev('ctor_cores', 1, lambda x, a: torchtt.TT(x.cores)),
     Ev('reduce_dims', 1, lambda x, a: x.reduce_dims(), inplace=True),
     Ev('watch', 1, lambda x, a: torchtt.grad.watch(x), inplace=True, enabled=lambda x: not x.cores[0].dtype.is_complex),
     Ev('unwatch', 1, lambda x, a: torchtt.grad.unwatch(x), inplace=True),
@@ -421,7 +430,7 @@ class Explorer:
             v = wf_violation(x)
             if v and 'wf' in self.monitors:
                 self.record('wf.initial.' + v[0], [], v[1])
-        evs = enabled_events(pool, None, self.with_slow)
+        evs = enabled_events(pool, None, True)       # the root level always includes the slow (iterative) entry points
         if first is not None:
             evs = evs[first:first + 1]
         self._expand(pool, snaps, [], evs, 1)
@@ -513,8 +522,8 @@ class Explorer:
 EVBYNAME = {ev.name: ev for ev in UNARY + BINARY + TERNARY}
 
 
-def root_event_count(pid, with_slow):
-    return len(enabled_events(init_pool(pid), None, with_slow))
+def root_event_count(pid, with_slow=True):
+    return len(enabled_events(init_pool(pid), None, True))
 
 
 def replay_history(pid, hist, monitors=('wf', 'imm')):
